@@ -271,6 +271,11 @@ class Interp:
                ast.Mod: 'mod', ast.Pow: 'pow'}
 
     def binop(self, op, a, b, inplace=False):
+        from .values import INF
+        if a is INF or b is INF:
+            if isinstance(op, (ast.Add, ast.Mult)) and not (a is None or b is None):
+                return INF          # (positive operands assumed: only used for ranges/lengths)
+            raise Unsupported('arithmetic with inf')
         if isinstance(a, SObj) or isinstance(b, SObj):
             nm = self._DUNDER.get(type(op))
             if nm is None:
@@ -320,6 +325,8 @@ class Interp:
         a, b = self._num(a), self._num(b)
         if isinstance(a, (int, Fraction)) and isinstance(b, (int, Fraction)):
             return self._concrete_binop(op, a, b)
+        if (a is None or b is None) and not self.spec_mode:
+            raise PyRaise('TypeError')      # arithmetic with None
         if not (isinstance(a, (int, Fraction)) or is_z3(a)) or not (isinstance(b, (int, Fraction)) or is_z3(b)):
             raise Unsupported(f'binary {type(op).__name__} on {type(a).__name__}, {type(b).__name__}')
         real = any((is_z3(x) and x.sort() == z3.RealSort()) or isinstance(x, Fraction) for x in (a, b))
@@ -429,6 +436,16 @@ class Interp:
             if isinstance(op, ast.NotIn):
                 r = (not r) if isinstance(r, bool) else z3.Not(r)
             return r
+        from .values import INF
+        if a is INF or b is INF:
+            if isinstance(op, (ast.Eq, ast.NotEq)):
+                r = a is b
+                return r if isinstance(op, ast.Eq) else not r
+            if a is INF and b is not INF:
+                return isinstance(op, (ast.Gt, ast.GtE))
+            if b is INF and a is not INF:
+                return isinstance(op, (ast.Lt, ast.LtE))
+            return isinstance(op, (ast.GtE, ast.LtE))
         if isinstance(a, SArr) or isinstance(b, SArr):
             if (isinstance(a, SArr) and a.np) or (isinstance(b, SArr) and b.np):
                 return self.arr_binop(op, a, b)
@@ -485,6 +502,9 @@ class Interp:
         return z3.simplify(res)
 
     def equals(self, a, b):
+        from .values import INF
+        if a is INF or b is INF:
+            return a is b
         if a is None or b is None:
             if a is None and b is None:
                 return True
